@@ -167,9 +167,10 @@ PROPS = {
         'level': 'proof',
         'units': [
             {'engine': 'verus', 'name': 'replication', 'tier': 'quick', 'role': 'Replication::{clamp,intersect}, DemuxCoord::{new,includes_channel}, From impls'},
+            {'engine': 'verus', 'name': 'placement', 'tier': 'quick', 'role': 'Scheduler::remote_block_info: replicas per host (all cores / min(n, cores) filled host by host / one per host / one) and contiguous global ids in host order; the function never reads the local host id'},
         ],
-        'explanation': 'NARROW claim: only the placement arithmetic (clamp = min(limit, available), intersect = more restrictive requirement) and the demultiplexer coordinate of a link are proved (Verus). '
-                       'Scheduler::{local,remote}_block_info, build_execution_graph and NetworkTopology::build iterate over hash maps with iterator adapters and macros: outside the Verus subset, intractable for CBMC here.',
-        'assumptions': ['placement loops, forward wiring (finding F4: a producer replica without same-index consumer gets no consumer) and port assignment are NOT under contract'],
+        'explanation': 'Verus proofs of the placement of a block on the hosts (Scheduler::remote_block_info, any number of hosts and cores: replicas per host per replication kind, global ids contiguous in host order, hence distinct and in [0,#replicas), computed without reading the local host id), of the placement arithmetic (Replication::clamp/intersect) and of the demultiplexer coordinate of a link. '
+                       'NOT under contract: Scheduler::local_block_info, build_execution_graph (forward wiring, finding F4) and NetworkTopology::build (port assignment): iterator adapters over hash maps.',
+        'assumptions': ['forward wiring (finding F4: a producer replica without same-index consumer gets no consumer), port assignment and local_block_info are NOT under contract', 'std HashMap modelled by its map view'],
     },
 }
